@@ -92,6 +92,20 @@ def check(repo: Repo) -> Result:
             if a in lut and a != canon and a != "":
                 res.bad(f"alias-shadows:{a}", LUT, f"alias {a!r} of {canon!r} is itself a different table symbol", rid=r1)
 
+    # the functions that turn a name into a table row keep nothing between calls: a process-global memo keyed by the
+    # name alone answers for the table of whichever registry asked first (one name, then, has the reading of another
+    # registry).  Evaluated before the decision table so that the report is made even when the table cannot be built.
+    from rules import memo_rules
+
+    r11 = res.rule("C14-R11", "name resolution (_split_prefix, _lookup_unit_symbol, UnitRegistry.__getitem__, the expression walk) keeps no process-global memo whose key does not determine the table it was computed from (shared with C12-R1)", floor=1)
+    lookup_fns = {"_split_prefix", "_lookup_unit_symbol", "UnitRegistry.__getitem__", "UnitRegistry.__contains__", "_get_unit_data_from_expr", "_lookup_unit_symbol_in_lut", "Unit.__new__"}
+    n_g = 0
+    for key, ok, where, msg, exp, found in memo_rules.calltime_globals(repo, only_functions=lookup_fns):
+        n_g += 1
+        res.check(ok, "lookup:" + key, where, msg + " - the same name then resolves to a unit of another registry's table", exp, found, rid=r11)
+    if not n_g:
+        res.ok("lookup-keeps-no-global-state", r11)
+
     precedence(repo, res)
 
     r3 = res.rule("C14-R3", "prefix spellings carry SI values; alternative spellings of one prefix agree", floor=23)
@@ -124,8 +138,8 @@ def check(repo: Repo) -> Result:
 
     r9 = res.rule("C14-R9", "a prefixed unit derived by the lookup is stored as NOT prefixable: otherwise a second prefix is accepted once the first has been used (kkm, Mkm), a reading no documented name has", floor=1)
     share(res, r9, "C02", lambda t_: _c02.prefix_composition(repo, t_), ["C02-R2"], want=lambda k: k == "not-prefixable")
-    r10 = res.rule("C14-R10", "one name, one unit, whatever was looked up before: re-adding a symbol drops the prefixed rows derived from its old definition before the new row is stored, and define_unit refuses every spelling the registry already resolves (prefixed forms included, stored or not) (shared with C12-R2)", floor=3)
-    share(res, r10, "C12", lambda t_: c12.invalidation(repo, t_), ["C12-R2"], want=lambda k: k in ("add:derived-rows", "add:derived-rows:after-evaluation", "define_unit:exists-guard", "define_unit", "add:every-normal-exit-writes"), min_keys=3)
+    r10 = res.rule("C14-R10", "one name, one unit, whatever was looked up before: re-adding a symbol drops the prefixed rows derived from its old definition before the new row is stored, and define_unit refuses every spelling the registry already resolves (prefixed forms included, stored or not); the purge removes a row only when it equals the row the lookup would have derived, so that explicit rows whose name happens to be prefix + symbol (kt, ft, nt, ha) keep their reading (shared with C12-R2)", floor=3)
+    share(res, r10, "C12", lambda t_: c12.invalidation(repo, t_), ["C12-R2"], want=lambda k: k in ("add:derived-rows", "add:derived-rows:after-evaluation", "define_unit:exists-guard", "define_unit", "add:every-normal-exit-writes", "_forget_prefixed", "_forget_prefixed:recogniser"), min_keys=3)
     r8 = res.rule("C14-R8", "after a registry edit every spelling of the edited unit (alias, word-prefixed form) is re-read from the table: the whole unit-string cache is cleared, not only the keys that contain the symbol's text", floor=3)
     share(res, r8, "C12", lambda t_: c12.invalidation(repo, t_), ["C12-R2"], want=lambda k: k.endswith(":unit-cache"), min_keys=3)
 
